@@ -8,7 +8,7 @@ from hypothesis import strategies as st
 from hypothesis.stateful import RuleBasedStateMachine, rule, initialize, precondition, invariant
 
 from vf import gen, refmodel as rm, trajgen, pairsel, findings
-from vf.core import Mismatch, Sub, Report, HarnessError
+from vf.core import Mismatch, Sub, Report, HarnessError, Skip
 from vf.pairsel import Bad
 
 from evo.core import geometry, filters, lie_algebra as lie
@@ -45,7 +45,21 @@ class History(object):
         self.timed = bool(init["timed"])
         if self.timed and real.T is None:
             real.T = np.arange(real.n, dtype=float) * 0.5 + 100.0
-        self.obj = real.build(init.get("pre", ()), timed=self.timed)
+        if init.get("share") and real.mode == "se3" and real.n >= 2:
+            # a stationary stretch given as the SAME matrix object twice (as in evo's own [pose] * n test data)
+            j = real.n // 2
+            P = real.P.copy()
+            P[j] = P[j - 1]
+            Rs = real.Rs()
+            Rs[j] = Rs[j - 1]
+            real = trajgen.Real(P, Rs, "se3", real.T)
+            mats = [T.copy() for T in real.poses]
+            mats[j] = mats[j - 1]
+            self.obj = (PoseTrajectory3D(poses_se3=mats, timestamps=real.T.copy()) if self.timed else PosePath3D(poses_se3=mats))
+            for v in init.get("pre", ()):
+                getattr(self.obj, v)
+        else:
+            self.obj = real.build(init.get("pre", ()), timed=self.timed)
         self.poses = [np.array(p) for p in real.poses]
         self.T = None if not self.timed else np.array(real.T, dtype=float)
         self.projected = False
@@ -198,6 +212,16 @@ class History(object):
             j += 1
         return ids
 
+    def _ambiguous_identity(self):
+        """without stamps, equal poses cannot be told apart in a selection result"""
+        if self.timed:
+            return False
+        P = np.array([p[:3, 3] for p in self.poses])
+        tol = self._ptol()
+        order = np.lexsort(P.T)
+        Ps = P[order]
+        return bool(np.any(np.all(np.abs(np.diff(Ps, axis=0)) <= tol, axis=1))) if len(Ps) > 1 else False
+
     def _op_down(self, op, o, n):
         N = int(op["n"])
         if N < 1 and n > N:
@@ -207,9 +231,26 @@ class History(object):
                 return
             raise Mismatch("downsample(%d) not refused" % N, observed="not_refused", after="down")
         o.downsample(N)
-        ids = self._match_ids("downsample")
+        ids = None
+        if not self.timed and o.num_poses == min(n, N) and N < n:
+            # without stamps equal poses make the identification ambiguous: try the evenly spaced candidates first
+            Pout = np.asarray(o.positions_xyz)
+            ptol = self._ptol()
+            lin = np.linspace(0, n - 1, N)
+            for cand in (np.floor(lin).astype(int), np.round(lin).astype(int), np.ceil(lin).astype(int)):
+                cand = [int(v) for v in cand]
+                if len(set(cand)) == len(cand) and all(float(np.abs(self.poses[j][:3, 3] - Pout[k]).max()) <= ptol for k, j in enumerate(cand)):
+                    ids = cand
+                    break
+        if ids is None:
+            ids = self._match_ids("downsample")
         from vf.checks.c11 import check_downsample_ids
-        check_downsample_ids(ids, n, N)
+        try:
+            check_downsample_ids(ids, n, N)
+        except Mismatch:
+            if self._ambiguous_identity():
+                raise Skip("untimed selection with equal poses: kept ids not identifiable")
+            raise
         self._select(ids)
 
     def _op_mf(self, op, o, n):
@@ -221,12 +262,22 @@ class History(object):
                 return
             raise Mismatch("motion_filter on one pose not refused", observed="not_refused", after="mf")
         o.motion_filter(d, math.degrees(a) if op["deg"] else a, op["deg"])
-        ids = self._match_ids("motion_filter")
         P = np.array([p[:3, 3] for p in self.poses])
         steps = rm.step_lengths(P)
+        ids = None
+        if not self.timed:
+            # without stamps equal poses make the identification ambiguous: try the ids the definition gives first
+            ref_ids, amb = pairsel.motion_filter_reference(P, [p[:3, :3] for p in self.poses], d, a, 1e-7 * max(math.fsum(steps), d, self.mag), 1e-7)
+            Pout = np.asarray(o.positions_xyz)
+            if not amb and len(ref_ids) == o.num_poses and all(float(np.abs(P[j] - Pout[k]).max()) <= self._ptol() for k, j in enumerate(ref_ids)):
+                ids = ref_ids
+        if ids is None:
+            ids = self._match_ids("motion_filter")
         try:
             pairsel.check_motion_filter(ids, P, [p[:3, :3] for p in self.poses], d, a, 1e-7 * max(math.fsum(steps), d, self.mag), 1e-7)
         except Bad as b:
+            if self._ambiguous_identity():
+                raise Skip("untimed selection with equal poses: kept ids not identifiable")
             raise Mismatch("motion_filter in a history: %s" % b.msg, observed=b.clause, after="mf")
         self._select(ids)
 
@@ -396,7 +447,7 @@ for _r in READS:
     OPS[_r] = st.just({"op": _r})
 
 st_init = st.integers(1, 12).flatmap(lambda n: st.fixed_dictionaries({
-    "traj": trajgen.st_traj(n, stamps=True, exp_lo=-2, exp_hi=4), "timed": st.booleans(),
+    "traj": trajgen.st_traj(n, stamps=True, exp_lo=-2, exp_hi=4), "timed": st.booleans(), "share": st.sampled_from([False, False, True]),
     "pre": st.lists(st.sampled_from(trajgen.VIEWS), max_size=2, unique=True)}))
 st_init_bulk = st.fixed_dictionaries({"bulk": st.fixed_dictionaries({"n": st.just(200), "seed": st.integers(0, 2 ** 32), "mode": st.sampled_from(["pq", "se3"])}),
                                       "timed": st.booleans(), "pre": st.lists(st.sampled_from(trajgen.VIEWS), max_size=1)})
@@ -425,6 +476,10 @@ class TrajectoryMachine(RuleBasedStateMachine):
         cls = type(self)
         try:
             fn()
+            return
+        except Skip as sk:
+            cls.vf_rep.skip("%s:%s" % (cls.vf_sub.name, sk.reason))
+            self.dead = True
             return
         except Mismatch as m:
             msg, tags = m.msg, m.tags
@@ -489,7 +544,8 @@ ALPHABET = [
     {"op": "ids", "ids": [0, 2], "as_array": False}, {"op": "down", "n": 2}, {"op": "mf", "d": 1.0, "a": 0.5, "deg": False},
     {"op": "crop", "i": 1, "j": 2, "lo_out": False, "hi_out": True, "lo_none": False, "hi_none": False},
     {"op": "align", "seed": 7, "mode": "similarity", "n": -1}, {"op": "origin", "seed": 9}, {"op": "project", "plane": "xy"},
-    {"op": "copy"}, {"op": "r_pos"}, {"op": "r_quat"}, {"op": "r_se3"}, {"op": "r_check"},
+    {"op": "copy"}, {"op": "r_pos"}, {"op": "r_quat"}, {"op": "r_se3"}, {"op": "r_check"}, {"op": "r_len"}, {"op": "r_dist"}, {"op": "r_speed"},
+    {"op": "r_info"},
 ]
 _ENUM_TRAJ = {"n": 3, "pos": {"pts": [[0.1, 0.2, 0.3], [0.9, -0.4, 0.5], [-0.7, 0.8, -0.2]], "mag": 10.0, "off": 0},
               "rots": [{"q": [0.9, 0.1, -0.3, 0.2]}, {"axis": [0.0, 1.0, 0.0], "theta": 2.0}, {"quarter": [1, 0, 2]}],
@@ -500,8 +556,10 @@ def enum_cases(tier):
     depth = 3 if tier == "quick" else 4
     for mode in ("pq", "se3"):
         for timed in (True, False):
-            for pre in ([], ["poses_se3"] if mode == "pq" else ["positions_xyz"]):
-                init = {"traj": dict(_ENUM_TRAJ, mode=mode, pre=[]), "timed": timed, "pre": pre}
+            for pre in ([], ["poses_se3"] if mode == "pq" else ["positions_xyz"], ["share"]):
+                if pre == ["share"] and mode != "se3":
+                    continue
+                init = {"traj": dict(_ENUM_TRAJ, mode=mode, pre=[]), "timed": timed, "pre": [] if pre == ["share"] else pre, "share": pre == ["share"]}
                 for L in range(1, depth + 1):
                     for seq in itertools.product(range(len(ALPHABET)), repeat=L):
                         if L == depth and tier != "quick" and ALPHABET[seq[-1]]["op"] in ("copy",):
